@@ -3,6 +3,7 @@ package main
 import (
 	"fmt"
 	"go/token"
+	"go/types"
 	"sort"
 	"strings"
 
@@ -179,15 +180,43 @@ func ruleQRFormulas(c *Ctx) {
 	const R7 = "Q7-QR-INFOCOORDS"
 	c.Doc(R7, "qr.drawFormatInfo writes format bit i (MSB first) at the 2x15 ISO positions (expressed in dim); qr.drawVersionInfo writes bit 17-i at (dim-11+i%3, i/3) and transposed; the dark module is set at (8, dim-8)")
 	c.Floor(R7, 33)
-	if fn := c.theFunc(R7, "qr.drawFormatInfo"); fn != nil && len(fn.Params) == 3 {
+	if fn := c.theFunc(R7, "qr.drawFormatInfo"); fn != nil {
+		// roles by use and by the data flow from render: set = the callback parameter, mask = the int
+		// parameter compared with -1, vi / level / dim = whatever the call sites in render agree on
 		n := NewNormer(c.P)
-		n.BindParams(fn, "vi", "mask", "set")
-		// bind dim
+		var setP *ssa.Parameter
+		for _, p := range fn.Params {
+			if _, isFn := p.Type().Underlying().(*types.Signature); isFn {
+				setP = p
+				n.Bind[p] = "set"
+			}
+			if namedTypeName(p.Type()) == "qr.versionInfo" {
+				n.Bind[p] = "vi"
+			}
+		}
 		eachInstr(fn, func(b *ssa.BasicBlock, ins ssa.Instruction) {
-			if call, ok := ins.(*ssa.Call); ok && calleeOf(call) != nil && c.P.FuncName(calleeOf(call)) == "qr.(*versionInfo).modulWidth" {
-				n.Bind[call] = "dim"
+			if bo, ok := ins.(*ssa.BinOp); ok && bo.Op == token.EQL {
+				if p, isP := bo.X.(*ssa.Parameter); isP && isIntType(p.Type()) {
+					if k, isK := constInt(bo.Y); isK && k == -1 {
+						n.Bind[p] = "mask"
+					}
+				}
 			}
 		})
+		if render := c.P.Func("qr.render"); render != nil {
+			n.Root = render
+			for _, p := range render.Params {
+				if namedTypeName(p.Type()) == "qr.versionInfo" {
+					n.Bind[p] = "vi"
+				}
+			}
+		}
+		n.NoInline["qr.(*versionInfo).modulWidth"] = true
+		n.AtomAlias["call:qr.(*versionInfo).modulWidth(vi)"] = "dim"
+		if setP == nil {
+			c.Undecided(R7, "qr.drawFormatInfo/set", fn.Pos(), "no callback parameter")
+			return
+		}
 		want := map[string]bool{}
 		first := [][2]string{{"0", "8"}, {"1", "8"}, {"2", "8"}, {"3", "8"}, {"4", "8"}, {"5", "8"}, {"7", "8"}, {"8", "8"}, {"8", "7"}, {"8", "5"}, {"8", "4"}, {"8", "3"}, {"8", "2"}, {"8", "1"}, {"8", "0"}}
 		second := [][2]string{{"8", "dim-1"}, {"8", "dim-2"}, {"8", "dim-3"}, {"8", "dim-4"}, {"8", "dim-5"}, {"8", "dim-6"}, {"8", "dim-7"}, {"dim-8", "8"}, {"dim-7", "8"}, {"dim-6", "8"}, {"dim-5", "8"}, {"dim-4", "8"}, {"dim-3", "8"}, {"dim-2", "8"}, {"dim-1", "8"}}
@@ -200,7 +229,7 @@ func ruleQRFormulas(c *Ctx) {
 		n.FoldTables = true
 		eachInstr(fn, func(b *ssa.BasicBlock, ins ssa.Instruction) {
 			call, ok := ins.(*ssa.Call)
-			if !ok || call.Common().Value != ssa.Value(fn.Params[2]) {
+			if !ok || call.Common().Value != ssa.Value(setP) {
 				return
 			}
 			// a call inside constant-trip loops stands for one call per iteration
@@ -258,9 +287,30 @@ func ruleQRFormulas(c *Ctx) {
 			c.Check("C12-QR-LEVEL", "qr.drawFormatInfo/word", fmtVal.Pos(), false, "formatInfos[vi.Level][usedMask] selected unless mask == -1", n.Norm(fmtVal).String())
 		}
 	}
-	if fn := c.theFunc(R7, "qr.drawVersionInfo"); fn != nil && len(fn.Params) == 2 {
+	if fn := c.theFunc(R7, "qr.drawVersionInfo"); fn != nil {
 		n := NewNormer(c.P)
-		n.BindParams(fn, "vi", "set")
+		var setP *ssa.Parameter
+		for _, p := range fn.Params {
+			if _, isFn := p.Type().Underlying().(*types.Signature); isFn {
+				setP = p
+				n.Bind[p] = "set"
+			}
+			if namedTypeName(p.Type()) == "qr.versionInfo" {
+				n.Bind[p] = "vi"
+			}
+		}
+		if render := c.P.Func("qr.render"); render != nil {
+			n.Root = render // other parameters (version, dimension) resolve through the call in render
+			for _, p := range render.Params {
+				if namedTypeName(p.Type()) == "qr.versionInfo" {
+					n.Bind[p] = "vi"
+				}
+			}
+		}
+		if setP == nil {
+			c.Undecided(R7, "qr.drawVersionInfo/set", fn.Pos(), "no callback parameter")
+			return
+		}
 		var bitsV ssa.Value
 		eachInstr(fn, func(b *ssa.BasicBlock, ins ssa.Instruction) {
 			if lk, ok := ins.(*ssa.Lookup); ok && lk.CommaOk {
@@ -277,7 +327,7 @@ func ruleQRFormulas(c *Ctx) {
 		}
 		var calls []*ssa.Call
 		eachInstr(fn, func(b *ssa.BasicBlock, ins ssa.Instruction) {
-			if call, ok := ins.(*ssa.Call); ok && call.Common().Value == ssa.Value(fn.Params[1]) {
+			if call, ok := ins.(*ssa.Call); ok && call.Common().Value == ssa.Value(setP) {
 				calls = append(calls, call)
 				if phi, _, ok := loopCounter(b.Preds[0]); ok {
 					n.Bind[phi] = "i"
